@@ -388,6 +388,17 @@ package decimal
 //@   use mul_mono(1, m[j], P(j-lo))
 //@   use mul_mono(0, m[hi-1], P(hi-1-lo))
 
+//@ lemma V_zero_iff(m array, lo, hi)
+//@   requires lo <= hi
+//@   requires forall k in lo..hi :: 0 <= m[k]
+//@   ensures V(m, lo, hi) == 0 <==> (forall k in lo..hi :: m[k] == 0)
+//@   induction hi from lo
+//@   use Vdef(m, lo, hi-1)
+//@   use V_nonneg(m, lo, hi-1)
+//@   use Pdef(hi-1-lo)
+//@   use mul_mono(1, m[hi-1], P(hi-1-lo))
+//@   use mul_mono(0, m[hi-1], P(hi-1-lo))
+
 //@ func (z dec) clear()
 //@   modifies mem(z)
 //@   ensures[zero] forall k in 0..len(z) :: z[k] == 0
